@@ -553,6 +553,60 @@ fn adaptors(c: &mut Cat, seed: u64, n_trees: u64) {
             c.rep.violation("alloc|signal::bus lock-step growth", format!("three outputs pulled in blocks of 64: live heap grew by {} bytes after warm-up", worst), "entry=bus".to_string());
         }
     }
+    // bus again, after outputs came and went: one output races ahead and is dropped, a laggard
+    // is dropped, a new one attaches - the survivors pulled in step must not grow the backlog
+    {
+        let bus = msrc().bus();
+        let mut outs = vec![bus.send(), bus.send()];
+        {
+            let mut lead = bus.send();
+            for _ in 0..37 {
+                bb(lead.next());
+            }
+            let mut lag = bus.send();
+            bb(lag.next());
+            drop(lead);
+            for o in outs.iter_mut() {
+                for _ in 0..5 {
+                    bb(o.next());
+                }
+            }
+            drop(lag);
+        }
+        outs.push(bus.send());
+        for _ in 0..4 {
+            for o in outs.iter_mut() {
+                for _ in 0..64 {
+                    bb(o.next());
+                }
+            }
+        }
+        // bring every survivor to the same position first (they attached at different times)
+        let target = outs.iter().map(|o| o.pending_frames()).max().unwrap();
+        for o in outs.iter_mut() {
+            while o.pending_frames() > 0 {
+                bb(o.next());
+            }
+        }
+        bb(target);
+        let base = alloc::snap();
+        let mut worst = 0i64;
+        let mut worst_backlog = 0usize;
+        for _ in 0..(c.calls / 64).max(4) {
+            for o in outs.iter_mut() {
+                for _ in 0..64 {
+                    bb(o.next());
+                }
+            }
+            worst = worst.max(alloc::snap().since(&base).live_bytes);
+            worst_backlog = worst_backlog.max(bus.verif_backlog_len());
+        }
+        c.names.push("signal::bus lock-step after outputs were dropped/attached (no growth)");
+        c.rep.hit("catalogue_entries_measured");
+        if worst > 0 || worst_backlog > 0 {
+            c.rep.violation("alloc|signal::bus growth after dropped outputs", format!("after dropping a leading and a lagging output, three survivors pulled in blocks of 64: live heap grew by {} bytes, backlog at cycle boundaries up to {} frames", worst, worst_backlog), "entry=bus2".to_string());
+        }
+    }
     // random adaptor trees (C04's generator), without harness-side logging closures
     let mut rng = Rng::derive(seed, &[7]);
     let mut done = 0;
